@@ -592,6 +592,46 @@ func c09(r *mon.Run) {
 			t.Count("sorts of lists holding zeros of both signs")
 			t.Nontrivial("zs:" + strconv.Itoa(i))
 		}}
+	// by-functions over elements that print alike and are not alike ("1" and 1, "null" and null, "[1,2,3]" and [1,2,3] ...), with key
+	// expressions that tell them apart: each element gets the key of what it is, in every order and at every position
+	lk := []interface{}{"1", float64(1), "true", true, "null", nil, "[1,2,3]", []interface{}{float64(1), float64(2), float64(3)}, `{"a":1}`, map[string]interface{}{"a": float64(1)}, "[]", []interface{}{}, "0", float64(0), "-1", float64(-1), "1.5", 1.5, "\"x\"", "x"}
+	lkKeys := []func() *gen.Expr{
+		func() *gen.Expr { return gen.Func("type", gen.Current()) }, func() *gen.Expr { return gen.Func("length", gen.Func("type", gen.Current())) },
+		func() *gen.Expr { return gen.Func("to_string", gen.Func("type", gen.Current())) }, func() *gen.Expr { return gen.Func("length", gen.Func("to_string", gen.Func("to_array", gen.Current()))) },
+	}
+	lkFns := []string{"sort_by", "max_by", "min_by", "map"}
+	lkw := mon.Workload{Name: "by-functions-over-look-alike-elements", N: len(lk) / 2 * len(lkKeys) * len(lkFns) * 12, Batch: 200,
+		Do: func(i int, t *mon.Tally) {
+			shape := i % 12
+			k := i / 12
+			fnm := lkFns[k%len(lkFns)]
+			k /= len(lkFns)
+			key := lkKeys[k%len(lkKeys)]()
+			p := k / len(lkKeys) // the pair
+			s0, v0 := lk[2*p], lk[2*p+1]
+			q := (p + 1 + shape/4) % (len(lk) / 2)
+			s1, v1 := lk[2*q], lk[2*q+1]
+			var arr []interface{}
+			switch shape % 4 {
+			case 0:
+				arr = []interface{}{s0, v0}
+			case 1:
+				arr = []interface{}{v0, s0}
+			case 2:
+				arr = []interface{}{s0, v1, v0, s1, s0, v0}
+			default:
+				arr = []interface{}{v1, v0, s1, s0, v0, v1, s0}
+			}
+			var tree *gen.Expr
+			if fnm == "map" {
+				tree = gen.Func("map", gen.ExpRef(key), gen.Field("a"))
+			} else {
+				tree = gen.Func(fnm, gen.Field("a"), gen.ExpRef(key))
+			}
+			cx := &caseCtx{r, t, "by-functions-over-look-alike-elements", i}
+			cx.runBoth(tree, gen.SpellTight(tree), map[string]interface{}{"a": arr})
+			t.NontrivialDistinct(1)
+		}}
 	// nested in random contexts
 	nr := tierPick(r, 40000, 1000000)
 	ctx := mon.Workload{Name: "calls-in-context", N: nr,
@@ -756,7 +796,7 @@ func c09(r *mon.Run) {
 				t.Count("by-functions over lists with nulls: value expected")
 			}
 		}}
-	r.Exec(exh, typed, every, strw, trw, akw, kindPairsWorkload(r, "C09"), ctx, large, sizedWorkload(r, "sized-arrays", false), reuse, nullw, edgew, cuw, zsw, prodw)
+	r.Exec(exh, typed, every, strw, trw, akw, kindPairsWorkload(r, "C09"), ctx, large, sizedWorkload(r, "sized-arrays", false), reuse, nullw, edgew, cuw, zsw, prodw, lkw)
 }
 
 // c09ReuseTrees: calls nested in the arguments of other calls (and in expression references, projections,
